@@ -3,12 +3,23 @@ import CCT.Model.SignThreads
 /-! invariant of in-place signer threads under every schedule -/
 namespace CCT
 
+/-- "every entry of the shared map is an original one or the entry of a signer that has finished" -/
+def SOthers (signers : Nat → Signer) (p0 : J) (sigs0 sigs : List (PStr × J)) (ts : Nat → SLocal) : Prop :=
+  ∀ x, dictGet x sigs = dictGet x sigs0 ∨ ∃ j, 3 ≤ (ts j).pc ∧ (signers j).key = x ∧ dictGet x sigs = some ((signers j).entryOf p0)
+
 /-- what holds in every reachable state of a family of in-place signers started on payload `p0` and signature map `sigs0` -/
 structure SInv (signers : Nat → Signer) (p0 : J) (sigs0 : List (PStr × J)) (sh : Envelope) (ts : Nat → SLocal) : Prop where
   signed : sh.signed = p0
   threads : ∀ i, (ts i).pc = 0 ∨ ((ts i).pc = 1 ∧ (ts i).payload = some p0) ∨ ((ts i).pc = 2 ∧ (ts i).entry = some ((signers i).entryOf p0))
       ∨ (3 ≤ (ts i).pc ∧ ∃ j, (signers j).key = (signers i).key ∧ dictGet (signers i).key sh.sigs = some ((signers j).entryOf p0))
-  others : ∀ x, dictGet x sh.sigs = dictGet x sigs0 ∨ ∃ j, (signers j).key = x ∧ dictGet x sh.sigs = some ((signers j).entryOf p0)
+  others : SOthers signers p0 sigs0 sh.sigs ts
+
+theorem SOthers.mono {signers : Nat → Signer} {p0 : J} {sigs0 sigs : List (PStr × J)} {ts ts' : Nat → SLocal}
+    (hm : ∀ j, 3 ≤ (ts j).pc → 3 ≤ (ts' j).pc) (h : SOthers signers p0 sigs0 sigs ts) : SOthers signers p0 sigs0 sigs ts' := by
+  intro x
+  rcases h x with h | ⟨j, hj, hk, hg⟩
+  · exact Or.inl h
+  · exact Or.inr ⟨j, hm j hj, hk, hg⟩
 
 theorem SInv.init (signers : Nat → Signer) (p0 : J) (sigs0 : List (PStr × J)) (ts : Nat → SLocal) (h0 : ∀ i, (ts i).pc = 0) :
     SInv signers p0 sigs0 { sigs := sigs0, signed := p0 } ts :=
@@ -17,25 +28,36 @@ theorem SInv.init (signers : Nat → Signer) (p0 : J) (sigs0 : List (PStr × J))
 theorem SInv.step (signers : Nat → Signer) (p0 : J) (sigs0 : List (PStr × J)) (sh : Envelope) (ts : Nat → SLocal)
     (h : SInv signers p0 sigs0 sh ts) (i : Nat) :
     SInv signers p0 sigs0 (stepInPlace (signers i) sh (ts i)).1 (fun j => if j = i then (stepInPlace (signers i) sh (ts i)).2 else ts j) := by
-  rcases h.threads i with hpc | ⟨hpc, hpl⟩ | ⟨hpc, hen⟩ | ⟨hpc, _⟩
+  rcases h.threads i with hpc | ⟨hpc, hpl⟩ | ⟨hpc, hen⟩ | ⟨hpc, hfin⟩
   · -- reads the payload
     have e : stepInPlace (signers i) sh (ts i) = (sh, { ts i with pc := 1, payload := some sh.signed }) := by simp [stepInPlace, hpc]
     rw [e]
-    refine ⟨h.signed, fun m => ?_, h.others⟩
-    by_cases hm : m = i
-    · subst hm; simp [h.signed]
-    · simpa [hm] using h.threads m
+    refine ⟨h.signed, fun m => ?_, h.others.mono fun j hj => ?_⟩
+    · by_cases hm : m = i
+      · subst hm; simp [h.signed]
+      · simpa [hm] using h.threads m
+    · by_cases hji : j = i
+      · subst hji; omega
+      · simpa [hji] using hj
   · -- computes its entry
     have e : stepInPlace (signers i) sh (ts i) = (sh, { ts i with pc := 2, entry := (ts i).payload.map (signers i).entryOf }) := by simp [stepInPlace, hpc]
     rw [e]
-    refine ⟨h.signed, fun m => ?_, h.others⟩
-    by_cases hm : m = i
-    · subst hm; simp [hpl]
-    · simpa [hm] using h.threads m
+    refine ⟨h.signed, fun m => ?_, h.others.mono fun j hj => ?_⟩
+    · by_cases hm : m = i
+      · subst hm; simp [hpl]
+      · simpa [hm] using h.threads m
+    · by_cases hji : j = i
+      · subst hji; omega
+      · simpa [hji] using hj
   · -- stores its entry into the shared map
     have e : stepInPlace (signers i) sh (ts i)
         = ({ sh with sigs := dictSet sh.sigs (signers i).key ((signers i).entryOf p0) }, { ts i with pc := 3 }) := by simp [stepInPlace, hpc, hen]
     rw [e]
+    have hpc3 : ∀ j, 3 ≤ (ts j).pc → 3 ≤ ((fun j => if j = i then ({ ts i with pc := 3 } : SLocal) else ts j) j).pc := by
+      intro j hj
+      by_cases hji : j = i
+      · subst hji; omega
+      · simpa [hji] using hj
     refine ⟨h.signed, fun m => ?_, fun x => ?_⟩
     · by_cases hm : m = i
       · subst hm
@@ -51,17 +73,18 @@ theorem SInv.step (signers : Nat → Signer) (p0 : J) (sigs0 : List (PStr × J))
           · exact ⟨i, hk.symm, by rw [hk]; exact dictGet_dictSet_same _ _ _⟩
           · exact ⟨j, hj, by rw [dictGet_dictSet_other _ _ _ hk]; exact hg⟩
     · by_cases hx : x = (signers i).key
-      · exact Or.inr ⟨i, hx.symm, by rw [hx]; exact dictGet_dictSet_same _ _ _⟩
-      · rw [dictGet_dictSet_other _ _ _ hx]
-        exact h.others x
+      · exact Or.inr ⟨i, by simp, hx.symm, by rw [hx]; exact dictGet_dictSet_same _ _ _⟩
+      · rcases h.others x with ho | ⟨j, hj, hk, hg⟩
+        · exact Or.inl (by rw [dictGet_dictSet_other _ _ _ hx]; exact ho)
+        · exact Or.inr ⟨j, hpc3 j hj, hk, by rw [dictGet_dictSet_other _ _ _ hx]; exact hg⟩
   · -- finished: no step left
     obtain ⟨n, hn⟩ : ∃ n, (ts i).pc = n + 3 := ⟨(ts i).pc - 3, by omega⟩
     have e : stepInPlace (signers i) sh (ts i) = (sh, ts i) := by simp [stepInPlace, hn]
     rw [e]
-    refine ⟨h.signed, fun m => ?_, h.others⟩
-    by_cases hm : m = i
-    · subst hm; simpa using h.threads m
-    · simpa [hm] using h.threads m
+    have hts : (fun j => if j = i then (sh, ts i).2 else ts j) = ts := by
+      funext j; by_cases hji : j = i <;> simp [hji]
+    rw [hts]
+    exact ⟨h.signed, h.threads, h.others⟩
 
 theorem SInv.run (signers : Nat → Signer) (p0 : J) (sigs0 : List (PStr × J)) : ∀ (sched : List Nat) (sh : Envelope) (ts : Nat → SLocal),
     SInv signers p0 sigs0 sh ts → SInv signers p0 sigs0 (runSigners stepInPlace signers sh ts sched).1 (runSigners stepInPlace signers sh ts sched).2
@@ -69,5 +92,15 @@ theorem SInv.run (signers : Nat → Signer) (p0 : J) (sigs0 : List (PStr × J)) 
   | i :: r, sh, ts, h => by
     simp only [runSigners]
     exact SInv.run signers p0 sigs0 r _ _ (SInv.step signers p0 sigs0 sh ts h i)
+
+/-- a thread that is never scheduled stays where it is -/
+theorem runSigners_untouched (step : Signer → Envelope → SLocal → Envelope × SLocal) (signers : Nat → Signer) (m : Nat) :
+    ∀ (sched : List Nat) (sh : Envelope) (ts : Nat → SLocal), m ∉ sched → (runSigners step signers sh ts sched).2 m = ts m
+  | [], _, _, _ => rfl
+  | i :: r, sh, ts, h => by
+    simp only [runSigners]
+    rw [runSigners_untouched step signers m r _ _ (fun hm => h (List.mem_cons_of_mem _ hm))]
+    have : m ≠ i := fun e => h (e ▸ List.mem_cons_self)
+    simp [this]
 
 end CCT
